@@ -19,7 +19,9 @@ A3 == { <<97>>, <<DOT>>, <<DQ>>, <<BS>>, <<SP>>, <<195, 169>>, <<232, 170, 158>>
 A4 == { <<97>>, <<DOT>>, <<DQ>>, <<BS>>, <<195, 169>>, <<232, 170, 158>>, <<195>> }
 \* 5322-style whitespace and controls with non-ASCII (for the RFC6531_FOLLOW_RFC5322 build)
 A5 == { <<97>>, <<DOT>>, <<DQ>>, <<BS>>, <<SP>>, <<HT>>, <<CR>>, <<LF>>, <<1>>, <<195, 169>>, <<255>> }
-Alphabet == CASE AlphaId = 1 -> A1 [] AlphaId = 2 -> A2 [] AlphaId = 3 -> A3 [] AlphaId = 4 -> A4 [] AlphaId = 5 -> A5
+\* the 5322-variant look-ahead of is_6531_local: whitespace followed by non-ASCII / ill-formed bytes
+A6 == { <<97>>, <<DQ>>, <<SP>>, <<255>>, <<195, 169>>, <<DOT>>, <<BS>> }
+Alphabet == CASE AlphaId = 6 -> A6 [] AlphaId = 1 -> A1 [] AlphaId = 2 -> A2 [] AlphaId = 3 -> A3 [] AlphaId = 4 -> A4 [] AlphaId = 5 -> A5
 
 Init == s = <<>> /\ k = 0
 Next == k < MaxLen /\ \E c \in Alphabet : s' = s \o c /\ k' = k + 1
